@@ -60,6 +60,7 @@ type World struct {
 	fieldInv    map[*types.Var][3]int64
 	fieldLenInv map[*types.Var][3]int64
 	nilStored   map[*types.Var]bool
+	sumCache    map[string][]string
 	fninfo map[*ssa.Function]*FnInfo
 }
 
